@@ -44,7 +44,7 @@ Lemma getitem_pinned_absorbed_unfold t idx index : 2 <= length (tshape t) ->
   is_int (nth (length (tshape t) - 2) index full) = false -> is_int (nth (length (tshape t) - 1) index full) = false ->
   getitem_model Pinned false t idx = absorbed_res_pinned t index.
 Proof.
-  intros Hnd Hexp Hlen Habs Hr Hc. unfold getitem_model.
+  intros Hnd Hexp Hlen Habs Hr Hc. unfold getitem_model, getitem_front.
   replace (length (tshape t) <? 2) with false by (symmetry; apply Nat.ltb_ge; lia).
   rewrite Hexp. cbv zeta. unfold absorbed_idx in Habs. cbv zeta in Habs. rewrite Habs.
   cbn [negb andb variant_eqb].
@@ -112,7 +112,7 @@ Theorem getitem_pinned_nonabsorbed_eq : forall debug t idx index,
   not_m1 (nth (length (tshape t) - 1) index full) = true ->
   getitem_model Pinned debug t idx = getitem_model Fixed debug t idx.
 Proof.
-  intros debug t idx index Hexp Habs Hr Hc. unfold getitem_model.
+  intros debug t idx index Hexp Habs Hr Hc. unfold getitem_model, getitem_front.
   destruct (length (tshape t) <? 2); [reflexivity|]. rewrite Hexp. cbv zeta.
   unfold absorbed_idx in Habs. cbv zeta in Habs. rewrite Habs. cbn [negb andb variant_eqb].
   set (row := nth (length (tshape t) - 2) index full) in *. set (col := nth (length (tshape t) - 1) index full) in *.
